@@ -1138,6 +1138,13 @@ func (e *Engine) builtin(fr *Frame, b *ssa.Builtin, c *ssa.CallCommon, args []Va
 				elems[i] = bt
 			}
 			t = mkSlice(elems)
+		case JBytes, bufBytes, SigBytes, YBytes:
+			// opaque byte documents are immutable values of the engine: appending
+			// one to an empty slice is a copy
+			if s.len == 0 {
+				return a1
+			}
+			unsupported("append of %T to a non-empty slice", a1)
 		default:
 			unsupported("append of %T", a1)
 		}
